@@ -6,10 +6,10 @@
 
 struct Dummy { int x; };
 
-template <uintptr_t M>
+// U = MaxUpperMarkBits (third template parameter; 16 unless the user says otherwise)
+template <uintptr_t M, uintptr_t U = 16>
 static void vectors() {
-  using MP = xenium::marked_ptr<Dummy, M>;
-  constexpr uintptr_t U = 16;
+  using MP = xenium::marked_ptr<Dummy, M, U>;
   constexpr uintptr_t lower = M < U ? 0 : M - U;
   constexpr uintptr_t pb = 64 - M;
   auto run = [&](long pbit, long mbit) {
@@ -25,7 +25,7 @@ static void vectors() {
     MP c = [&] { if constexpr (M == 0) return MP(reinterpret_cast<Dummy*>(p ^ ((uintptr_t)1 << lower))); else return MP(dp, mk ^ 1); }();
     long flags = (a.get() == dp ? 1 : 0) | (a.mark() == mk ? 2 : 0) | ((a == b && !(a != b) && a != c) ? 4 : 0);
     uintptr_t w; static_assert(sizeof(MP) == sizeof(uintptr_t), "marked_ptr is one word"); memcpy(&w, &a, sizeof w);
-    xv::ev("mp", "vec", (long)M, pbit, mbit, flags);
+    xv::ev("mp", "vec", (long)M + (U == 16 ? 0 : 100 * (long)U), pbit, mbit, flags);
     xv::ev("mpw", "word", (long)(w & 0x1fffff), (long)((w >> 21) & 0x1fffff), (long)(w >> 42), 0);
   };
   for (long mb = -1; mb <= 64; mb++) {
@@ -42,7 +42,8 @@ template <> struct All<0> { static void go() { vectors<0>(); } };
 int main(int argc, char** argv) {
   return xv::explore_main(argc, argv, [](const std::string&) {
     xv::Scenario s; s.nthreads = 0;
-    s.setup = [] { All<32>::go(); };
+    // every mark width with the default split, and explicit MaxUpperMarkBits below / above the default (the split between upper and lower mark bits)
+    s.setup = [] { All<32>::go(); vectors<9, 8>(); vectors<12, 7>(); vectors<20, 12>(); vectors<5, 3>(); vectors<6, 8>(); vectors<24, 20>(); vectors<32, 1>(); };
     return s;
   });
 }
